@@ -543,11 +543,29 @@ def _run(ctx, quick, broken, exes, driver, tmp, gen_info, only_replay):
         jobs.append((g, Job(p, "plain", "p4096" if big else "p256", seed=rng.next() % 10**9, graph=True, cwd=ctx.build.tree, timeout=1800)))
     ctx.say("%d executions planned (%d scenarios, %d generated programs, %d suites)" % (len(jobs), len(scen), n_small + n_large, len(suites)))
     # ---------------------------------------------------------------- run
-    # long jobs first
-    order = sorted(range(len(jobs)), key=lambda i: (0 if (jobs[i][1].sched == "always" or jobs[i][1].sched.startswith("u")) else 1, i))
+    # Phase 1: the runs without forced collections (the reference of every program).  Phase 2: the scheduled runs, long jobs first,
+    # each with a time budget RELATIVE to what its own reference run took under the present load (40 x, at least 60 s, at most the
+    # job's fixed budget): on a tree where a collection makes programs hang (a lost wake-up), a fixed 300 s budget per execution
+    # used to cost more than an hour.  A run that exceeds its budget is still repeated alone with 3 x that budget (at least 180 s)
+    # before it counts (see the evaluation below): 120 x the program's own reference time - no wall-clock assertion.
     results = {}
+    first = [i for i in range(len(jobs)) if jobs[i][1].sched == "never"]
+    rest = [i for i in range(len(jobs)) if jobs[i][1].sched != "never"]
+    rest.sort(key=lambda i: (0 if (jobs[i][1].sched == "always" or jobs[i][1].sched.startswith("u")) else 1, i))
     with cf.ThreadPoolExecutor(int(os.environ.get("VERIF_JOBS", "16"))) as ex:
-        futs = {ex.submit(run_job, exes, jobs[i][1], tmp): i for i in order}
+        futs = {ex.submit(run_job, exes, jobs[i][1], tmp): i for i in first}
+        for f in cf.as_completed(futs):
+            results[futs[f]] = f.result()
+        ref_secs = {}
+        for i in first:
+            if results[i]["rc"] is not None:
+                ref_secs[jobs[i][0]] = max(ref_secs.get(jobs[i][0], 0.0), getattr(jobs[i][1], "secs", 0.0))
+        for i in rest:
+            g, j = jobs[i]
+            j.fixed_timeout = j.timeout
+            if g in ref_secs:
+                j.timeout = int(min(j.timeout, max(60 if not g.startswith("suite:") else 180, 40 * ref_secs[g])))
+        futs = {ex.submit(run_job, exes, jobs[i][1], tmp): i for i in rest}
         for f in cf.as_completed(futs):
             results[futs[f]] = f.result()
     slow = sorted(((getattr(j, "secs", 0), j.key()) for _, j in jobs), reverse=True)[:8]
@@ -604,7 +622,7 @@ def _run(ctx, quick, broken, exes, driver, tmp, gen_info, only_replay):
                 # too, the tree does hang - e.g. a fiber whose wake-up was lost - and the other timeouts are not repeated:
                 # on such a tree every repetition would cost 30 min.)
                 again = run_job(exes, Job(job.prog, job.variant, job.sched, seed=job.seed, graph=job.graph, crit=job.crit, cwd=job.cwd,
-                                          timeout=job.timeout * 3, args=job.args, stack_kb=job.stack_kb), tmp)
+                                          timeout=min(max(job.timeout * 3, 180), getattr(job, "fixed_timeout", job.timeout) * 3), args=job.args, stack_kb=job.stack_kb), tmp)
                 if again["rc"] is not None:
                     r = again
                     findings, summary, labels, crit = parse_report(r["rep"])
